@@ -368,8 +368,9 @@ private:
                     nextc();
                     c = current();
                     if (c == '/') {
-                        /* Skip 'dir/../' */
-                        nextc();
+                        /* Skip 'dir/../' (keep root) */
+                        if (mPos.l > mRootLength)
+                            nextc();
                         skips(false);
                         while (mPos.l > mRootLength && current() != '/')
                             nextc();
@@ -383,9 +384,9 @@ private:
                     break;
                 }
             } else if (c == '/') {
-                /* Skip double separator (keep root) */
-                nextc();
-                leadsep = false;
+                /* Skip double separator (keep root); after a leading separator stay on this one */
+                if (!leadsep)
+                    nextc();
                 continue;
             }
 
